@@ -17,7 +17,7 @@ Text is a list of code points `(99 112 …)`; an absent attribute is the atom `n
   gen.denote <impl> spec                   →  ok (schema …) | err <Err>
   gen.wf     <impl> spec                   →  true | false
   gen.table                                →  the datatype table, reserved names
-  witness C15                              →  ((<name> <impl> spec)*) — the specifications `Witness/C15.lean` is about
+  witness C15                              →  ((<name> <impl> spec)*) — the regression specifications of `Witness/C15.lean`
 -/
 namespace NasdaqModel.Driver.GenSoupAppD
 open NasdaqModel Sexp GenSoupApp
@@ -141,7 +141,8 @@ def witnesses : List (String × String × Spec) := [
   ("html-escaped-enum-value", "ouch", Witness.C15.enumSpec "<"),
   ("html-escaped-default-value", "sqf", Witness.C15.defaultSpec "A&B"),
   ("unescaped-quote-in-literal", "itch", Witness.C15.enumSpec "'"),
-  ("unescaped-quote-in-literal", "itch", Witness.C15.enumSpec "\\")]
+  ("unescaped-quote-in-literal", "itch", Witness.C15.enumSpec "\\"),
+  ("message-without-fields", "sqf", Witness.C15.emptyFields)]
 
 def handle (op : String) (args : List Sexp) : Option String :=
   match op, args with
